@@ -109,6 +109,14 @@ func Model(r *rand.Rand, opt ModelOpt) *openfgav1.AuthorizationModel {
 		// together without a separator cannot tell `u0 with c1` from `u0c1`
 		terms[nTerm-1] = terms[0] + "c1"
 	}
+	if r.Intn(15) == 0 {
+		// types named like the operator nodes the graph packages create (all three are ordinary DSL identifiers)
+		ops := []string{"union", "intersection", "exclusion"}
+		terms[0] = ops[r.Intn(3)]
+		if r.Intn(2) == 0 {
+			objs[0] = ops[(indexOf(ops, terms[0])+1+r.Intn(2))%3]
+		}
+	}
 	m := &openfgav1.AuthorizationModel{SchemaVersion: "1.1"}
 	for _, t := range terms {
 		m.TypeDefinitions = append(m.TypeDefinitions, &openfgav1.TypeDefinition{Type: t})
